@@ -16,7 +16,7 @@ import enum
 
 import z3
 
-from .values import (SV, SymObj, SymMap, SymSeq, NativeModel, Leaf, Unsupported, as_real, as_int, kind_of, truth,
+from .values import (SV, SymObj, SymMap, SymSeq, NativeModel, Leaf, SymStr, Unsupported, as_real, as_int, kind_of, truth,
                      real_val, key_eq, is_symbolic, name_const, NameSort)
 
 
@@ -183,6 +183,8 @@ class Path:
         else:
             ft = self._feasible(cond)
             ff = self._feasible(z3.Not(cond))
+            if ft and ff and getattr(self, "no_branch", False):
+                raise Unsupported("data-dependent branch inside the body of a symbolic comprehension/sum")
             if ft and ff:
                 self.new_prefixes.append(self.decisions + [False])
                 d = True
@@ -318,6 +320,9 @@ class Interp:
         self.total_arith = total_arith
         self.dropped = set()
         self.steps = 0
+        self.sum_specs = {}     # (qualname, ordinal of the sum(...) call in the function text) -> spec(locals) -> PrefixSum
+        self.call_site = None
+        self.call_env = None
 
     # ---------------------------------------------------------------- calling
 
@@ -364,6 +369,8 @@ class Interp:
             m = self.models.find(getattr(f, "__func__", f))
             if m is not None:
                 return m(self, args, kwargs)
+            if isinstance(f, types.BuiltinMethodType) and isinstance(f.__self__, str) and f.__name__ == "format":
+                return SymStr((f.__self__,) + tuple(args) + tuple(kwargs.values()))
             if isinstance(f, types.BuiltinMethodType) and f.__self__ is not None and \
                     not isinstance(f.__self__, types.ModuleType):
                 return self._container_method(f, args, kwargs)
@@ -507,6 +514,9 @@ class Interp:
         loops = [x for x in ast.walk(node) if isinstance(x, (ast.For, ast.While))]
         loops.sort(key=lambda x: (x.lineno, x.col_offset))
         env.loop_ids = {id(x): i + 1 for i, x in enumerate(loops)}
+        sums = [x for x in ast.walk(node) if isinstance(x, ast.Call) and isinstance(x.func, ast.Name) and x.func.id == "sum"]
+        sums.sort(key=lambda x: (x.lineno, x.col_offset))
+        env.sum_ids = {id(x): i + 1 for i, x in enumerate(sums)}
         if isinstance(node, ast.Lambda):
             return self.eval(node.body, env)
         try:
@@ -514,6 +524,24 @@ class Interp:
         except _Return as r:
             return r.v
         return None
+
+    # ---------------------------------------------------------------- truthiness
+
+    def truth(self, v):
+        """python truth of v: __bool__ / __len__ of the real class for symbolic instances."""
+        if isinstance(v, Leaf):
+            v = v.value
+        if isinstance(v, SymObj):
+            for nm in ("__bool__", "__len__"):
+                it = _lookup_class_attr(v.cls, nm)
+                if it is not None and isinstance(it[0], types.FunctionType):
+                    m = self.models.find(it[0])
+                    r = m(self, [v], {}) if m is not None else self._call_function(it[0], [v], {}, defcls=it[1])
+                    if isinstance(r, SymObj):
+                        raise Unsupported("__bool__ returned an object")
+                    return truth(r)
+            return True
+        return truth(v)
 
     # ---------------------------------------------------------------- statements
 
@@ -642,7 +670,7 @@ class Interp:
             self.dropped.add("if-logger-block")
             return
         c = self.eval(s.test, env)
-        if self.path.branch(truth(c)):
+        if self.path.branch(self.truth(c)):
             self.exec_block(s.body, env)
         else:
             self.exec_block(s.orelse, env)
@@ -662,7 +690,7 @@ class Interp:
 
     def x_Assert(self, s, env):
         c = self.eval(s.test, env)
-        if not self.path.branch(truth(c)):
+        if not self.path.branch(self.truth(c)):
             raise PyRaise(AssertionError())
 
     def x_Try(self, s, env):
@@ -730,7 +758,7 @@ class Interp:
         n = 0
         while True:
             c = self.eval(s.test, env)
-            if not self.path.branch(truth(c)):
+            if not self.path.branch(self.truth(c)):
                 self.exec_block(s.orelse, env)
                 return
             n += 1
@@ -848,7 +876,7 @@ class Interp:
 
     def e_IfExp(self, e, env):
         c = self.eval(e.test, env)
-        if self.path.branch(truth(c)):
+        if self.path.branch(self.truth(c)):
             return self.eval(e.body, env)
         return self.eval(e.orelse, env)
 
@@ -859,7 +887,7 @@ class Interp:
             v = self.eval(sub, env)
             if i == len(e.values) - 1:
                 return v
-            t = self.path.branch(truth(v))
+            t = self.path.branch(self.truth(v))
             if is_and and not t:
                 return v
             if not is_and and t:
@@ -871,7 +899,7 @@ class Interp:
         if isinstance(v, Leaf):
             v = v.value
         if isinstance(e.op, ast.Not):
-            t = truth(v)
+            t = self.truth(v)
             if isinstance(t, bool):
                 return not t
             return SV(z3.Not(t), "bool")
@@ -904,6 +932,8 @@ class Interp:
             a = a.value
         if isinstance(b, Leaf):
             b = b.value
+        if op is ast.Add and (isinstance(a, SymStr) or isinstance(b, SymStr)):
+            return SymStr((a, b))
         if isinstance(a, SymObj) or isinstance(b, SymObj):
             nm = {ast.Add: "add", ast.Sub: "sub", ast.Mult: "mul", ast.Div: "truediv", ast.Pow: "pow",
                   ast.FloorDiv: "floordiv", ast.Mod: "mod"}.get(op)
@@ -929,6 +959,10 @@ class Interp:
                 pass
             return self._native(_BINOPS[op], [a, b], {})
         ka, kb = kind_of(a), kind_of(b)
+        if op is ast.Add and (isinstance(a, (str, SymStr)) or ka == "name") and (isinstance(b, (str, SymStr)) or kb == "name"):
+            return SymStr((a, b))     # string concatenation with a symbolic name: opaque string
+        if op is ast.Mod and isinstance(a, str):
+            return SymStr((a, b))     # old-style formatting
         if ka is None or kb is None or "name" in (ka, kb):
             if a is None or b is None:
                 raise PyRaise(TypeError("unsupported operand type(s): %s and %s" % (
@@ -1304,6 +1338,8 @@ class Interp:
             if r is NotImplemented:
                 raise PyRaise(TypeError("%s is not subscriptable" % obj.cls.__name__))
             return r
+        if isinstance(obj, NativeModel):
+            return obj[idx]
         if isinstance(idx, SV):
             if isinstance(obj, (list, tuple)) and idx.k == "int":
                 n = len(obj)
@@ -1372,21 +1408,36 @@ class Interp:
 
     # ---- comprehensions
 
-    def _comp(self, e, env, emit):
+    def _map_seq(self, e, g, seq, env):
+        """[elt for target in <SymSeq>] -> lazily mapped SymSeq (no filter); the element expression is
+        evaluated when an index is requested."""
+        base_locals = dict(env.locals)
+
+        def elem(i):
+            sub = Env(dict(base_locals), env.globals, env.closure, env.defcls, env.selfobj)
+            sub.qualname = getattr(env, "qualname", None)
+            sub.loop_ordinal = 1000
+            self.assign(g.target, seq.elem(i), sub)
+            return self.eval(e.elt, sub)
+        return SymSeq(seq.length, elem, label="map(%s)" % seq.label, facts=seq.facts)
+
+    def _comp(self, e, env, emit, first_iter=None):
         sub = Env(dict(env.locals), env.globals, env.closure, env.defcls, env.selfobj)
         sub.qualname = getattr(env, "qualname", None)
         sub.loop_ordinal = 1000
+        sub.sum_ids = getattr(env, "sum_ids", {})
 
         def rec(i):
             if i == len(e.generators):
                 emit(sub)
                 return
             g = e.generators[i]
-            for x in self.iterate(self.eval(g.iter, sub)):
+            src = first_iter if (i == 0 and first_iter is not None) else self.eval(g.iter, sub)
+            for x in self.iterate(src):
                 self.assign(g.target, x, sub)
                 ok = True
                 for c in g.ifs:
-                    if not self.path.branch(truth(self.eval(c, sub))):
+                    if not self.path.branch(self.truth(self.eval(c, sub))):
                         ok = False
                         break
                 if ok:
@@ -1395,7 +1446,12 @@ class Interp:
 
     def e_ListComp(self, e, env):
         out = []
-        self._comp(e, env, lambda sub: out.append(self.eval(e.elt, sub)))
+        first = self.eval(e.generators[0].iter, env)
+        if isinstance(first, SymSeq):
+            if len(e.generators) != 1 or e.generators[0].ifs:
+                raise Unsupported("nested/filtered comprehension over a symbolic sequence (line %d)" % e.lineno)
+            return self._map_seq(e, e.generators[0], first, env)
+        self._comp(e, env, lambda sub: out.append(self.eval(e.elt, sub)), first_iter=first)
         return out
 
     def e_GeneratorExp(self, e, env):
@@ -1441,6 +1497,14 @@ class Interp:
                 kwargs.update(self.eval(k.value, env))
             else:
                 kwargs[k.arg] = self.eval(k.value, env)
+        so = getattr(env, "sum_ids", {}).get(id(e))
+        if so is not None:
+            self.call_site = (getattr(env, "qualname", None), so)
+            self.call_env = env
+            try:
+                return self.call(f, args, kwargs)
+            finally:
+                self.call_site = None
         return self.call(f, args, kwargs)
 
 
